@@ -31,6 +31,8 @@ func (y *yangParserEntryAdapter) valueToDatum(tv *sdcpb.TypedValue) xpath.Datum 
 		return xpath.NewBoolDatum(tv.GetBoolVal())
 	case *sdcpb.TypedValue_UintVal:
 		return xpath.NewNumDatum(float64(tv.GetUintVal()))
+	case *sdcpb.TypedValue_IntVal:
+		return xpath.NewNumDatum(float64(tv.GetIntVal()))
 	case *sdcpb.TypedValue_LeaflistVal:
 		datums := make([]xpath.Datum, 0, len(ttv.LeaflistVal.GetElement()))
 		for _, e := range ttv.LeaflistVal.GetElement() {
